@@ -1,2 +1,162 @@
-(* Properties/C17.v — pinned statements for property C17 (filled in below). *)
-From Sccache Require Import Base.Sx Model.Lru Model.TcCache.
+(* Properties/C17.v — pinned statements for property C17:
+   "The toolchain cache only ever serves content matching the requested id".
+
+   Model: Model/TcCache.v (TcCache of src/dist/cache.rs on top of the LruDiskCache model
+   Model/Lru.v, with file contents and an ABSTRACT digest function).  Every theorem is
+   universally quantified over the digest function [digest : bytes -> id], over the
+   initial cache [s0] satisfying the invariant [tinv] (every entry file sits at
+   a/b/<digest of its content>, index and disk agree, no upload in flight — an empty
+   cache directory in particular, Example tinv_empty_cache), and over ALL operation
+   sequences [ops] (uploads with matching / non-matching / invalid declared ids, uploads
+   cut short by a writer error or by a server crash + restart, insert_file, get,
+   contains, remove, reopen), of any length. *)
+From Coq Require Import List NArith Bool.
+From Sccache Require Import Base.Sx.
+From Sccache Require Import Model.Lru.
+From Sccache Require Import Model.TcCache.
+From Sccache Require Import Proofs.TcCache.
+Import ListNotations.
+Local Open Scope N_scope.
+
+(* In every reachable state, an id the cache reports present has an archive on disk whose
+   digest is that id, and whatever `get` returns for an id has that id as its digest. *)
+Theorem C17_content_matches :
+  forall (digest : bytes -> id) (s0 : tst) (ops : list top),
+  tinv digest s0 ->
+  let s := trun digest s0 ops in
+  forall i : id,
+  (tc_contains s i = true -> exists c, content_of s i = Some c /\ digest c = i) /\
+  (forall s' t ret, tc_get digest s i = (s', TOk, t, ret) ->
+     exists c, ret = [c; digest c] /\ digest c = i /\ content_of s i = Some c).
+Proof. exact content_matches. Qed.
+Print Assumptions C17_content_matches.
+
+(* If no two contents in play (the client's archive a0, the initial files, everything any
+   operation ever wrote) collide under the digest ("no BLAKE3 collision"), then `get` of
+   the id of a0 returns a0 itself, never anything else. *)
+Theorem C17_serves_the_intended_archive :
+  forall (digest : bytes -> id) (s0 : tst) (ops : list top) (a0 : bytes),
+  tinv digest s0 ->
+  no_collision digest (a0 :: universe s0 ops) ->
+  let s := trun digest s0 ops in
+  forall s' t ret, tc_get digest s (digest a0) = (s', TOk, t, ret) -> ret = [a0; digest a0].
+Proof. exact serves_the_intended_archive. Qed.
+Print Assumptions C17_serves_the_intended_archive.
+
+(* An upload that is cut short (writer error), whose content does not hash to the declared
+   id, or whose declared id is not a valid id, is rejected and changes nothing: index,
+   files, contents are as before, no temp file stays, every id is reported and served as
+   before, and a restarted cache (any capacity) is the same as if the upload had never
+   happened. *)
+Theorem C17_bad_upload_leaves_nothing :
+  forall (digest : bytes -> id) (s0 : tst) (ops : list top) (i : id) (b : bytes) (fail : bool),
+  tinv digest s0 ->
+  let s := trun digest s0 ops in
+  (fail = true \/ digest b <> i \/ valid_id i = false) ->
+  exists s' r, tc_insert_with digest s i b fail = (s', r, None) /\ r <> TOk /\
+    index (lru s') = index (lru s) /\ files (lru s') = files (lru s) /\ cont s' = cont s /\
+    handles (lru s') = [] /\
+    (forall j, tc_contains s' j = tc_contains s j /\ content_of s' j = content_of s j) /\
+    (forall c, index (lru (tc_reopen s' c)) = index (lru (tc_reopen s c)) /\
+               files (lru (tc_reopen s' c)) = files (lru (tc_reopen s c)) /\
+               cont (tc_reopen s' c) = cont (tc_reopen s c)).
+Proof. exact bad_upload_leaves_nothing. Qed.
+Print Assumptions C17_bad_upload_leaves_nothing.
+
+(* A server that dies while (or right after) an upload of ANY bytes under ANY id was being
+   received comes back exactly as if it had merely been restarted. *)
+Theorem C17_crashed_upload_leaves_nothing :
+  forall (digest : bytes -> id) (s0 : tst) (ops : list top) (i : id) (b : bytes) (c : N),
+  tinv digest s0 ->
+  let s := trun digest s0 ops in
+  let s' := tc_crash_upload s i b c in
+  index (lru s') = index (lru (tc_reopen s c)) /\ files (lru s') = files (lru (tc_reopen s c)) /\
+  cont s' = cont (tc_reopen s c) /\ handles (lru s') = [] /\
+  (forall j, tc_contains s' j = tc_contains (tc_reopen s c) j /\
+             content_of s' j = content_of (tc_reopen s c) j).
+Proof. exact crashed_upload_leaves_nothing. Qed.
+Print Assumptions C17_crashed_upload_leaves_nothing.
+
+(* For the ids the (fixed) code accepts, make_lru_key_path is total: its two slices do not
+   panic, the path is a/b/id with exactly these three plain components (relative, no "..",
+   no empty component), its file name is the id (never a temp-file name, so a restart
+   keeps it), and distinct ids never share a path. *)
+Theorem C17_key_path_total :
+  forall i : id, valid_id i = true ->
+  slices_ok i = true /\
+  (exists a b, key_path i = [a; 47; b; 47] ++ i /\ components (key_path i) = [[a]; [b]; i]) /\
+  forallb plain_component (components (key_path i)) = true /\
+  file_name (key_path i) = i /\ is_temp (key_path i) = false /\
+  (forall j, key_path j = key_path i -> j = i).
+Proof. exact key_path_total. Qed.
+Print Assumptions C17_key_path_total.
+
+(* Ids outside that class never reach the disk: every call returns its "absent" answer and
+   the state is untouched. *)
+Theorem C17_invalid_id_no_effect :
+  forall (digest : bytes -> id) (s : tst) (i : id), valid_id i = false ->
+  (forall b f, tc_insert_with digest s i b f = (s, TRejected, None)) /\
+  tc_get digest s i = (s, TNotInCache, None, []) /\
+  tc_contains s i = false /\
+  tc_remove s i = (s, TOk).
+Proof. exact invalid_id_no_effect. Qed.
+Print Assumptions C17_invalid_id_no_effect.
+
+(* The client side (ClientToolchains: weak-key map in front of a TcCache filled by
+   insert_file): after any sequence of put_toolchain (incl. failing packagers), get_toolchain
+   and restarts, what get_toolchain returns for an id has that id as its digest. *)
+Theorem C17_client_content_matches :
+  forall (digest : bytes -> id) (s0 : cst) (ops : list cop),
+  tinv digest (tcs s0) ->
+  let s := crun digest s0 ops in
+  forall i s' t ret, cstep digest s (CGet i) = (s', TORes TOk t ret) ->
+  exists c, ret = [c; digest c] /\ digest c = i /\ content_of (tcs s) i = Some c.
+Proof. exact client_content_matches. Qed.
+Print Assumptions C17_client_content_matches.
+
+(* ---------- non-vacuity ---------- *)
+
+(* the hypothesis [tinv] holds for a freshly created cache directory *)
+Example tinv_empty_cache : forall digest c, tinv digest (tc_empty c).
+Proof. exact tinv_empty. Qed.
+
+(* a toy digest producing valid ids (letters a-f, then "00") *)
+Definition toy_digest (b : bytes) : id := map (fun x => 97 + x mod 6) b ++ [48; 48].
+
+Definition ex_ops : list top :=
+  [ TInsertWith (toy_digest [1; 2; 3]) [1; 2; 3] false;     (* accepted *)
+    TInsertWith (toy_digest [1; 2; 3]) [9; 9] false;        (* mismatch: rejected *)
+    TInsertWith (toy_digest [4; 5]) [4] true;               (* cut short: rejected *)
+    TCrashUpload (toy_digest [4; 5]) [4] 100;               (* crash + restart *)
+    TInsertFile [7; 7; 7; 7] ].
+
+Example ex_run_serves :
+  let s := trun toy_digest (tc_empty 100) ex_ops in
+  tc_contains s (toy_digest [1; 2; 3]) = true /\
+  tc_contains s (toy_digest [4; 5]) = false /\
+  tc_contains s (toy_digest [7; 7; 7; 7]) = true /\
+  snd (tstep toy_digest s (TGet (toy_digest [1; 2; 3])))
+    = TORes TOk (Some (key_path (toy_digest [1; 2; 3]))) [[1; 2; 3]; toy_digest [1; 2; 3]].
+Proof. vm_compute. repeat split. Qed.
+
+Example ex_rejected :
+  snd (tstep toy_digest (tc_empty 100) (TInsertWith (toy_digest [1; 2; 3]) [9; 9] false))
+    = TORes TRejected None [] /\
+  valid_id (toy_digest [1; 2; 3]) = true /\ valid_id [97] = false /\ valid_id [46; 46; 47; 120] = false.
+Proof. vm_compute. repeat split. Qed.
+
+Example ex_no_collision :
+  no_collision toy_digest ([1; 2; 3] :: universe (tc_empty 100) ex_ops).
+Proof.
+  intros a b Ha Hb. vm_compute in Ha, Hb.
+  repeat (destruct Ha as [<-|Ha]; [|]); try contradiction;
+  repeat (destruct Hb as [<-|Hb]; [|]); try contradiction; vm_compute; congruence.
+Qed.
+
+Example ex_client :
+  let s := crun toy_digest {| tcs := tc_empty 100; weak := [] |}
+             [CPut [119; 49] [1; 2; 3] false; CPut [119; 50] [4] true; CPut [119; 49] [9] false; CReopen 50] in
+  snd (cstep toy_digest s (CGet (toy_digest [1; 2; 3])))
+    = TORes TOk (Some (key_path (toy_digest [1; 2; 3]))) [[1; 2; 3]; toy_digest [1; 2; 3]] /\
+  weak s = [([119; 49], toy_digest [1; 2; 3])].
+Proof. vm_compute. repeat split. Qed.
